@@ -399,11 +399,11 @@ theorem dryT_paths (C : exit0_Ctx) (hG : exit0_Good C) (hH : dryT_Hyp C) (hm : C
       have hfu : (sortedNames es).length + 1 +
           (if (Subdir.new = Subdir.new) then
             (st.files.filter (fun x => x.1 == root ++ [47] ++ subdirName .cur)).length + 3 else 0) ≤
-          walkFuel st root np := by
+          walkFuel C.env st root np := by
         rw [World.length_sortedNames]
         simp only [if_true, walkFuel]
         omega
-      refine dryT_wpS_bind (dryT_walk C hG hH b.expr (walkFuel st root np) _ st w3 pre _ (sortedNames es) h3 rfl rfl
+      refine dryT_wpS_bind (dryT_walk C hG hH b.expr (walkFuel C.env st root np) _ st w3 pre _ (sortedNames es) h3 rfl rfl
         ⟨?_, hnp⟩ ⟨none, 0, hobj3⟩ hrem3 hs (fun _ => ⟨_, rfl⟩) (fun _ => hf3) hrokO hinvO hdirs3 herr hfu) ?_
       · intro d' hd'
         cases hd'
